@@ -3,11 +3,15 @@ import math
 
 from harness import dtwgen
 
-COQ_FILES = ["theories/BandTie.v", "theories/Engines.v", "props/C02.v"]
+COQ_FILES = ["theories/BandTie.v", "theories/CBand.v", "theories/Engines.v", "props/C02.v"]
 THEOREMS = [("DVProps.C02", "C02_off_encodings_commute"), ("DVProps.C02", "C02_engines_same_model"),
-            ("DVProps.C02", "C02_mld_zero_refuted")]
+            ("DVProps.C02", "C02_mld_zero_refuted"), ("DVProps.C02", "C02_c_kernels_same_band_and_buffer")]
 TRUSTED_BASE = [
     "Coq 8.16.1 kernel (no native_compute)",
+    "tools/translate_c.py: ldiff, dl, dl_window, ldiff_window, maxj, minj, skip, length of the four dtw_distance* "
+    "kernels regenerated from dd_dtw.c (Gen_cmem.v) and PROVED equal to the specification band and to the buffer "
+    "geometry regenerated from dtw.py (CBand.v); the cell update / pruning bookkeeping of the C kernels are tied by "
+    "correspondence to the as-written model (C03: pydistp) and to the Python engine",
     "settings decoding (DTWSettings.c_kwargs, dtw_cc.pyx DTWSettings.__init__, C '== 0 means off' tests) is "
     "hand-modelled in theories/Engines.v and tied by correspondence",
     "extraction (ExtrOcamlBasic only) + driver.ml; harness/props/C02.py",
